@@ -485,7 +485,7 @@ impl TryFrom<DbPasswordV1> for Password {
                 material: Kdf::CRYPT_SHA256 { h },
             }),
             DbPasswordV1::CRYPT_SHA512 { h } => Ok(Password {
-                material: Kdf::CRYPT_SHA256 { h },
+                material: Kdf::CRYPT_SHA512 { h },
             }),
         }
     }
